@@ -655,8 +655,13 @@ func (a *Agent) AddJobToQueue(job Job) []Job {
 	a.JobMtx.Lock()
 	defer a.JobMtx.Unlock()
 
-	// store the RequestID									
-	a.AddRequest(job)
+	// store the RequestID of what is answered on a request id: an operator's task (it has a
+	// task id) or a packet that was given an id of its own. The packets the relays queue
+	// (socket writes, closes, connects) have neither: their answers are socket callbacks,
+	// which are accepted as such, and request id 0 must not become acceptable through them
+	if job.TaskID != "" || job.RequestID != 0 {
+		a.AddRequest(job)
+	}
 	// if it's a pivot agent then add the job to the parent
 	if a.Pivots.Parent != nil {
 		//logger.Debug("Prepare command for pivot demon: " + a.NameID)
